@@ -232,7 +232,10 @@ Proof.
   destruct (fckey_eqb k k'); [intros H; right; exact H|]. intros [H|H]; [left; exact H|right; apply IH; exact H].
 Qed.
 Lemma firstn_incl {A} m (l : list A) x : In x (firstn m l) -> In x l.
-Proof. revert l; induction m as [|m IH]; intros [|y l]; cbn [firstn]; try tauto. intros [H|H]; [left; exact H|right; apply IH; exact H]. Qed.
+Proof.
+  revert l; induction m as [|m IH]; intros l; destruct l as [|y l]; cbn [firstn]; intros H; try (destruct H; fail).
+  destruct H as [H|H]; [left; exact H|right; apply IH; exact H].
+Qed.
 
 Lemma istep_ok ws q n st op : 0 < q -> ist_ok ws q n st ->
   (let '(s, _, _) := st in wf_ops n (evs s) [op]) -> ist_ok ws q n (istep ws q st op).
